@@ -919,7 +919,6 @@ Section Loop.
 End Loop.
 
 (** * Create *)
-Definition nused (freqs : list Z) : Z := zsum (map (Z.min 1) freqs).
 
 Lemma zsum_repeat0 k : zsum (repeat 0 k) = 0.
 Proof. induction k; cbn [repeat zsum]; lia. Qed.
